@@ -937,12 +937,41 @@ def _loop_rows(facts, body, header, env_extra=None, unfold='default'):
     env = {}
     defaults = {repr(s0.default_local(l)): l for l in mods}
 
+    # memory the loop writes: a read of it inside an arrival value is the value on arrival
+    wpfx = []
+    if arrive:
+        st0 = _State()
+        st0.env = dict(arrive[0].env)
+        for pl in s0._written.get(header, []):
+            base = s0.read_local(st0, pl['l'])
+            while base[0] == 'upd':
+                base = base[1]
+            root = base
+            while root[0] in ('f', 'idx', 'dc', 'upd'):
+                root = root[1]
+            if root[0] != 'v':
+                continue
+            pt = base
+            for pr in pl['pr']:
+                if pr == '*':
+                    continue
+                if isinstance(pr, dict) and 'f' in pr:
+                    pt = ('f', pt, pr['f'])
+                else:
+                    break
+            wpfx.append(tstr(pt, 100000))
+
     def at_entry(t):
-        """a loop-modified local mentioned in an arrival value denotes its value on arrival, not the current one"""
+        """a loop-modified local (or loop-written memory) mentioned in an arrival value denotes its value on arrival, not
+        the current one"""
         if not isinstance(t, tuple):
             return t
         if t[0] in ('v', 't') and repr(t) in defaults:
             return ('v0', t[1] if t[0] == 'v' else '_%d' % t[1], defaults[repr(t)])
+        if t[0] in ('f', 'idx') and wpfx:
+            s = tstr(t, 100000)
+            if any(s == q or (s.startswith(q) and s[len(q)] in '.[') for q in wpfx):
+                return ('old', t)
         out = []
         for x in t:
             if isinstance(x, tuple):
